@@ -32,6 +32,8 @@ def cases(draw, tier="quick"):
     if draw(st.sampled_from([False, False, True])):
         mingap = min(c["gaps"][1:])
         c["pre_env_latency_us"] = draw(st.sampled_from([0, 1, mingap // 2, mingap - 1]))   # an earlier env on the same transmitter
+    if draw(st.sampled_from([False, False, False, True])):
+        c["readd_timesteps"] = draw(st.lists(st.integers(0, 14), min_size=1, max_size=3))   # add_timesteps after the env was built
     if draw(st.integers(0, 2)) == 0:
         n = len(c["contracts"])
         k = draw(st.integers(2, 5))
@@ -56,6 +58,8 @@ def run(case):
         res.tag("two-episodes-on-one-environment")
     if case.get("fold"):
         res.tag("episode-starts-in-a-later-fold")
+    if case.get("readd_timesteps"):
+        res.tag("timesteps-registered-again-after-build")
     if case.get("pre_env_latency_us") is not None and case["pre_env_latency_us"] != case["latency_us"]:
         res.tag("transmitter-previously-used-with-another-latency")
     return res
